@@ -155,6 +155,43 @@ def components_of(h, w, cells):
     return out
 
 
+def with_loops(rng, n, edges, k=None):
+    """the same graph plus self-loops add_edge(v, v) (legal for Graph; irrelevant for connectivity, decisive for adjacency)"""
+    k = k if k is not None else rng.randint(1, 2)
+    e2 = list(edges) + [(v, v) for v in (rng.randrange(n) for _ in range(k))]
+    rng.shuffle(e2)
+    return e2
+
+
+def line_graph_object(rng, nmax=5):
+    """A Graph OBJECT obtained from Graph.line_graph() of a random small graph H (vertex k of the result = edge k of H), together
+    with its edge list computed here from the definition (two edges of H adjacent iff they share an endpoint; one edge per shared
+    pair), in the order the object itself reports its edges.  Returns (graph_object, n, edges) or None if they disagree as sets
+    (then the caller counts it: the line graph itself is wrong)."""
+    from cspuz.graph import Graph
+
+    hn = rng.randint(2, nmax)
+    hedges = []
+    for _ in range(rng.randint(1, 6)):
+        u, v = rng.sample(range(hn), 2)
+        hedges.append((u, v))
+    H = Graph(hn)
+    for u, v in hedges:
+        H.add_edge(u, v)
+    g = H.line_graph()
+    n = len(hedges)
+    want = set()
+    for a in range(n):
+        for b in range(a + 1, n):
+            if set(hedges[a]) & set(hedges[b]):
+                want.add(frozenset((a, b)))
+    got = [tuple(g[k]) for k in range(len(g))]
+    if g.num_vertices != n or {frozenset(e) for e in got} != want or any(len(set(e)) != 2 for e in got):
+        return None
+    # multiplicities as reported (parallel line-graph edges for parallel H edges are the object's business; connectivity ignores them)
+    return g, n, got
+
+
 def scramble(rng, edges):
     """Same graph, edges in random order and random orientation (add_edge(larger, smaller) is legal)."""
     e2 = [(v, u) if rng.random() < 0.5 else (u, v) for u, v in edges]
@@ -186,19 +223,43 @@ def apply_form(s, form, pattern, rng=None):
             act.append(~v)
             pins.append(~v if p else v)
         else:
+            # a compound flag: a node of every boolean operator occurs as the flag's top node (side_t is pinned true)
             if side_t is None:
                 side_t = s.bool_var()
                 pins.append(side_t)
             v = s.bool_var()
-            act.append((v & side_t) | (v & ~side_t))
+            t = side_t
+            shape = rng.randrange(9) if rng else k % 9
+            e = [lambda: (v & t) | (v & ~t), lambda: v & t, lambda: t & v, lambda: v | ~t, lambda: ~(~v), lambda: v == t, lambda: v ^ ~t,
+                 lambda: t.then(v), lambda: ~(t ^ v)][shape]()
+            act.append(e)
             pins.append(v if p else ~v)
     return act, pins
+
+
+def has_native(s):
+    from cspuz.expr import Expr, Op
+
+    def walk(e):
+        return isinstance(e, Expr) and (e.op in (Op.GRAPH_ACTIVE_VERTICES_CONNECTED, Op.GRAPH_DIVISION) or any(walk(c) for c in e.operands))
+    return any(walk(c) for c in s.constraints)
+
+
+def backend_for(ctx, s, backend):
+    """The stand-in is only needed (and only efficient) for programs that contain a native graph operator: a program without one is
+    decided through z3 whatever was requested, so that a constraint function that quietly posts the other encoding is still judged
+    against the definition instead of timing out in the stand-in."""
+    if backend is not None and not has_native(s):
+        ctx.count("graph.primitive_requested_but_no_native_operator_posted")
+        return None
+    return backend
 
 
 def solve_sat(ctx, s, backend=None):
     """find_answer under M-SOLVE; returns True/False or None if the assistant fired / stand-in overflowed."""
     st = msolve.state()
     f0 = st.fired if st else 0
+    backend = backend_for(ctx, s, backend)
     try:
         res = s.find_answer(backend=backend)
     except OverflowError:
